@@ -169,19 +169,23 @@ pub fn check_step(f: &StepFacts<'_>) -> (Vec<Finding>, Vec<u64>) {
         match e {
             Ev::Enter { call, addr, len, fp, .. } => {
                 entered += 1;
-                if *addr != f.pre_addr || *fp != pre_fp || *len != n {
+                // (the address is recorded but not demanded: showing the maker an equal copy of
+                // the previous population would satisfy the statement just as well)
+                let _ = addr;
+                if *fp != pre_fp || *len != n {
                     out.push(Finding {
                         clause: "children-made-from-the-previous-unmodified-population",
                         key: format!("{which}:maker-saw-different-population"),
                         message: format!(
-                            "step {}: child-maker call {call} was shown a population at {addr:#x} (len {len}, fingerprint {fp:#x}); the previous population is at {:#x} (len {n}, fingerprint {pre_fp:#x})",
-                            f.step, f.pre_addr
+                            "step {}: child-maker call {call} was shown a population of {len} with fingerprint {fp:#x}; the previous population has {n} members and fingerprint {pre_fp:#x}",
+                            f.step
                         ),
                     });
                 }
             }
             Ev::Exit { call, addr, fp, ok, serial } => {
-                if *addr != f.pre_addr || *fp != pre_fp {
+                let _ = addr;
+                if *fp != pre_fp {
                     out.push(Finding {
                         clause: "children-made-from-the-previous-unmodified-population",
                         key: format!("{which}:population-changed-while-making-children"),
